@@ -23,12 +23,17 @@ class ThriftObject:
         return self.data.get(item)
 
 
-def build(size_only=False):
+def build(size_only=False, tokens=False):
     ns = rt.namespace({"ThriftObject": ThriftObject, "np": rt.NPShim,
                        "NumpyIO": (lambda buf: rt.PyNumpyIO(buf.n, content=None, strict_drop=True))})
     if size_only:
         ns["encode_unsigned_varint"] = rt.encode_unsigned_varint_size
         ns["long_zigzag"] = lambda n: n * 2 if n >= 0 else -2 * n - 1
+    if tokens:
+        ns["encode_unsigned_varint"] = rt.tok_encode_varint
+        ns["read_unsigned_var_int"] = rt.tok_read_varint
+        ns["long_zigzag"] = rt.tok_long_zigzag
+        ns["zigzag_long"] = rt.tok_zigzag_long
     infos = {}
     for name, cls in (("read_thrift", None), ("read_list", None), ("write_thrift", None), ("write_list", None),
                       ("dict_eq", None), ("to_bytes", "ThriftObject")):
